@@ -12,6 +12,7 @@ A *unit template* (/verif/units/<name>.u.c) is C text with directives:
   //@ enforce FN / //@ replace FN    goto-instrument --enforce-contract / --replace-call-with-contract
   //@ entry FN                       harness entry point
   //@ note TEXT                      assumption recorded in the evidence
+  //@ tier thorough                  the unit is run in this tier only (too slow for the per-change tier)
   //@ table FILE NAME [as CNAME] [asenum]   copy a static table / constant definition textually (asenum: scalar
                                      constant emitted as `enum { NAME = value };` so that it can be an array bound in C)
   //@ struct FILE CLASS [opts]       generate `struct CLASS` from the real class declaration + static SELF
@@ -1555,6 +1556,8 @@ def process(template_path):
             elif key == 'enum':
                 kv = parse_kv(args[3:])
                 out.append(gen_enum(args[0], args[1], args[2], cnt, scope=kv.get('scope')))
+            elif key == 'tier':
+                info['tiers'] = args      # the unit belongs to these tiers only (vf/check.py selects)
             else:
                 raise ExtractionError('unknown directive //@ %s' % key)
     if not info['unit']:
